@@ -31,6 +31,8 @@ def shards(tier, seed):
     out = [{"name": f"defs-{i}of{n}", "kind": "json", "i": i, "n": n, "tier": tier, "seed": seed} for i in range(n)]
     m = 4 if tier == "quick" else 16
     out += [{"name": f"dump-{i}", "kind": "dump", "i": i, "tier": tier, "seed": seed} for i in range(m)]
+    # the dump of a gateway client over its whole life: several connections, losses noticed by the reader and by a failing send
+    out += [{"name": f"client-dump-{k}", "kind": "client_dump", "client": k, "tier": tier, "seed": seed} for k in ("ebyte", "yd", "waveshare", "actisense")]
     return out
 
 
@@ -348,8 +350,100 @@ def run_dump(spec, acc):
         shutil.rmtree(base, ignore_errors=True)
 
 
+def run_client_dump(spec, acc):
+    """A client that dumps: what its dump file holds when it is closed is the JSON of every message it delivered - on the first
+    connection and on the ones it opened after a loss (seen by the reader, or by a send() whose write or flush failed)."""
+    import asyncio
+    from .. import simgw
+    from .c12 import packetise
+    from .c13 import make_send_message
+    dbx = refdb.db()
+    rng = gen.rng_for(spec["seed"], ID, spec["name"])
+    kind = spec["client"]
+    quick = spec["tier"] == "quick"
+    base = os.path.join(runner.SCRATCH, f"c15-clientdump-{os.getpid()}")
+    os.makedirs(base, exist_ok=True)
+    try:
+        for rep in range(9 if quick else 90):
+            pool = hist.Pool(dbx, rng, n_single=6, n_fast=0)
+            path = os.path.join(base, f"d{rep}.jsonl")
+            losses = [("reader", "write", "flush")[(rep + k_) % 3] for k_ in range(1 + rep % 2)]
+            if kind == "actisense":
+                losses = ["reader"] * len(losses)          # (this client cannot send)
+            batches = []
+            for _ in range(len(losses) + 1):
+                b_ = []
+                for _ in range(3):
+                    d = rng.choice(pool.singles)
+                    pb = pool.payload(d)
+                    if pb is None:
+                        continue
+                    ev = hist.Ev(rng.randrange(8), d.pgn, rng.randrange(1, 250), 255, pb, "single", definition=d.id)
+                    b_.append((wire.actisense_line(ev.prio, ev.pgn, ev.src, 255, ev.data) + "\r\n").encode() if kind == "actisense" else packetise(kind, ev, rng))
+                batches.append(b_)
+
+            async def scenario(sim, batches=batches, losses=losses):
+                sim.spawn("connect")
+                await asyncio.sleep(0.05)
+                for n_, b_ in enumerate(batches):
+                    if len(sim.conns) <= n_:
+                        return
+                    conn = sim.conns[n_]
+                    conn.feed(b"".join(b_))
+                    await asyncio.sleep(0.5)
+                    if n_ == len(batches) - 1:
+                        break
+                    how = losses[n_]
+                    if how == "reader":
+                        conn.reset(simgw.link_loss(kind))
+                    else:
+                        if how == "flush":
+                            conn.drain_fails = 0
+                        else:
+                            conn.fail_write_after = 0
+                            conn.fail_exc = simgw.link_loss(kind, write=True)
+                        sim.spawn("send", make_send_message(kind))
+                    for _ in range(6000):
+                        if len(sim.conns) > n_ + 1 and sim.client.state.name == "CONNECTED":
+                            break
+                        await asyncio.sleep(0.01)
+                    await asyncio.sleep(0.1)
+                await asyncio.sleep(0.5)
+                await sim.close_guarded()
+            sim, stats = simgw.run_session(kind, scenario, client_kwargs={"dump_to_file": path})
+            acc.count("client_dump_sessions")
+            if stats["error"] or sim is None:
+                acc.inconclusive_because(f"simulator: {stats['error']}")
+                continue
+            if len(sim.conns) < len(batches):
+                acc.count("client_dump_sessions_without_reconnection")
+                continue
+            try:
+                sim.client.decoder.close()
+            except Exception:  # noqa: BLE001
+                pass
+            expected = [m.to_json() for m in sim.received]
+            try:
+                with open(path) as fh:
+                    lines = fh.read().split("\n")
+            except OSError:
+                lines = []
+            if lines and lines[-1] == "":
+                lines.pop()
+            acc.count("dump_runs")
+            acc.count("dump_lines_compared", len(lines))
+            acc.case((kind, tuple(losses), tuple(tuple(b_) for b_ in batches)))
+            acc.cover("client_dump_loss_kinds", "+".join(losses))
+            if lines != expected:
+                acc.violation("dump-misses-matching-messages" if len(lines) < len(expected) else "dump-line-content-differs",
+                              f"{kind} client with a dump file, {len(sim.conns)} connections (losses: {losses}): delivered {len(expected)} messages, the dump has {len(lines)} lines",
+                              {"client": kind, "losses": losses, "delivered": len(expected), "dump_lines": len(lines)})
+    finally:
+        shutil.rmtree(base, ignore_errors=True)
+
+
 def run_shard(spec, acc):
-    {"json": run_json, "dump": run_dump}[spec["kind"]](spec, acc)
+    {"json": run_json, "dump": run_dump, "client_dump": run_client_dump}[spec["kind"]](spec, acc)
 
 
 def replay(w, acc):
